@@ -582,7 +582,14 @@ pub fn apply_input_plugins(
         let op: in_ops::InputArrayOp = Rc::new(|q| p.process(q));
         in_ops::json_array_op(&mut plugin_state, op)?
     }
-    let result = in_ops::json_array_flatten(&mut plugin_state)?;
+    // the flatten step rejects a query that is not a JSON object, but reports it without
+    // the query itself: make the error response echo the request it answers
+    let result = in_ops::json_array_flatten(&mut plugin_state).map_err(|mut error_response| {
+        if error_response.is_object() {
+            error_response["request"] = query.clone();
+        }
+        error_response
+    })?;
     Ok(result)
 }
 
